@@ -6,8 +6,8 @@ CONSTANT SimKinds      \* sequence of kinds; repetitions weight the choice
 
 VARIABLE pending
 
-KindsAll == <<"http", "grpc", "weight", "beat", "sync", "dereg", "disc", "check", "clear", "tick", "tick">>
-KindsExpiry == <<"http", "http", "grpc", "weight", "beat", "beat", "sync", "dereg", "check", "check", "tick", "tick", "tick">>
+KindsAll == <<"http", "grpc", "weight", "beat", "sync", "range", "dereg", "disc", "check", "clear", "tick", "tick">>
+KindsExpiry == <<"http", "http", "grpc", "weight", "beat", "beat", "sync", "sync", "range", "dereg", "check", "check", "tick", "tick", "tick">>
 
 KindsConn == <<"http", "grpc", "grpc", "grpc", "weight", "sync", "dereg", "dereg", "disc", "disc", "check", "tick">>
 
@@ -22,6 +22,7 @@ SimNext ==
     \/ /\ pending = "sync" /\ pending' = "none" /\ \E s \in Svcs, a \in Addrs, n \in Nodes, g \in BOOLEAN, h \in BOOLEAN : SyncUpdate(s, a, n, g, h)
     \/ /\ pending = "dereg" /\ pending' = "none" /\ \E s \in Svcs, a \in Addrs, c \in Clients \cup {""} : Deregister(s, a, c)
     \/ /\ pending = "disc" /\ pending' = "none" /\ \E c \in Clients : Disconnect(c)
+    \/ /\ pending = "range" /\ pending' = "none" /\ \E o \in SUBSET Svcs : RefreshRange(o)
     \/ /\ pending = "check" /\ pending' = "none" /\ TimeCheck
     \/ /\ pending = "clear" /\ pending' = "none" /\ ClearEmpty
     \/ /\ pending = "tick" /\ pending' = "none" /\ Tick
